@@ -251,9 +251,19 @@ def st_veff_case(draw):
             temps.append(dT * draw(st.floats(1.0, 2.0)))
         else:
             temps.append(dT * draw(st.floats(2.0, 3.0)))
-    return {"kind": "veff", "nf": nf, "poly": poly, "fields": fields, "tscale": tscale,
+    case = {"kind": "veff", "nf": nf, "poly": poly, "fields": fields, "tscale": tscale,
             "fscale_kind": fscale, "fscale": fs if fscale == "float" else fsl, "eps": eps,
             "tmode": tmode, "T": temps}
+    # (round-4 seeds) integer-typed field points - Fields([110, 130]) is what the repository's own tests pass -
+    # with temperatures that are not integers; and a second polynomial installed IN PLACE on the same potential
+    # object after the first round of calls (the documented modelParameters.update route), after which every
+    # derivative is asked again at the same points
+    if draw(st.integers(0, 3)) == 0:
+        case["fields"] = [[float(draw(st.integers(-2 ** 10, 2 ** 10))) for _ in range(nf)] for _ in range(npnt)]
+        case["fields_dtype"] = draw(st.sampled_from(["int64", "int32"]))
+    if draw(st.integers(0, 2)) == 0:
+        case["poly2"] = draw(st_polyN(nf + 1, 3))
+    return case
 
 
 def strategy(tier):
@@ -604,7 +614,7 @@ def _make_veff(case):
     import WallGo
     from WallGo import Fields
 
-    mons = case["poly"]
+    holder = {"mons": case["poly"]}
     nf = case["nf"]
     calls = []
 
@@ -619,7 +629,7 @@ def _make_veff(case):
             X = np.empty(np.broadcast_shapes(f.shape[:-1], T.shape) + (nf + 1,))
             X[..., :nf] = f
             X[..., nf] = T
-            return poly_eval(mons, X)
+            return poly_eval(holder["mons"], X)
 
     V = PolyV()
     V.configureDerivatives(
@@ -629,13 +639,27 @@ def _make_veff(case):
                                       else [float(s) for s in case["fscale"]]),
         )
     )
-    return V, calls, Fields
+    return V, calls, Fields, holder
 
 
 def check_veff(case, v: Verdict):
-    V, calls, Fields = _make_veff(case)
-    nf, mons, eps = case["nf"], case["poly"], case["eps"]
-    F = Fields(*[np.array(p, dtype=float) for p in case["fields"]])
+    V, calls, Fields, holder = _make_veff(case)
+    fdt = case.get("fields_dtype", "float")
+    F = Fields(*[np.array(p, dtype=fdt) for p in case["fields"]])
+    v.label(f"veff-fields:{fdt}")
+    h = _check_veff_round(case, v, V, calls, F, case["poly"], "")
+    if case.get("poly2"):
+        # same object, same points, another polynomial (parameters changed in place); the arrays returned by the
+        # first round belong to the caller, who may overwrite them
+        if h is not None and h.flags.writeable:
+            h *= 3.0
+        holder["mons"] = case["poly2"]
+        v.label("veff-history:parameters-updated-in-place")
+        _check_veff_round(case, v, V, calls, F, case["poly2"], " after-parameter-update")
+
+
+def _check_veff_round(case, v: Verdict, V, calls, F, mons, suffix):
+    nf, eps = case["nf"], case["eps"]
     npnt = F.shape[0]
     T = float(case["T"][0]) if case["tmode"] == "scalar" else np.array(case["T"], dtype=float)
     Tb = np.broadcast_to(np.asarray(T, dtype=float), (npnt,))
@@ -643,8 +667,9 @@ def check_veff(case, v: Verdict):
     dT = case["tscale"] * eps ** 0.2
     nearT = bool(np.any(Tb < 2 * dT))
     v.label("veff", f"nf{nf}", f"T:{case['tmode']}", "T_near_zero" if nearT else "T_far")
-    v.nontrivial = bool(nearT or poly_deg(mons) == 3)
-    cls = f"veff nf={nf} Tmode={case['tmode']} nearT0={nearT}"
+    v.nontrivial = bool(v.nontrivial or nearT or poly_deg(mons) == 3)
+    cls = f"veff nf={nf} Tmode={case['tmode']} nearT0={nearT}" + (
+        f" fields={case['fields_dtype']}" if case.get("fields_dtype") else "") + suffix
     fs = np.full(nf, case["fscale"]) if case["fscale_kind"] == "float" else np.array(case["fscale"])
     absP = rounding_bound(mons, np.abs(X) + np.append(fs, case["tscale"]) * 4).max() / EPS
     # --- derivT (callers pass one field point with a scalar T, or N points with N temperatures;
@@ -710,6 +735,7 @@ def check_veff(case, v: Verdict):
     h, g, t2 = np.asarray(h), np.asarray(g), np.asarray(t2)
     if h.shape != (npnt, nf, nf) or g.shape != (npnt, nf) or t2.shape != (npnt,):
         v.fail("veff-allSecond", cls, f"shapes {h.shape} {g.shape} {t2.shape}")
+        return None
     else:
         if np.any(np.abs(h - full[:, :nf, :nf]) > tolH[:nf, :nf]):
             v.fail("veff-allSecond", cls, "field Hessian block differs from exact")
@@ -717,6 +743,7 @@ def check_veff(case, v: Verdict):
             v.fail("veff-allSecond", cls, "mixed field-T block differs from exact")
         if np.any(np.abs(t2 - full[:, nf, nf]) > tolH[nf, nf]):
             v.fail("veff-allSecond", cls, "d2V/dT2 differs from exact")
+    return h
 
 
 def check_case(case) -> Verdict:
